@@ -221,13 +221,13 @@ class XPath2Parser(XPath1Parser):
     def advance(self, *symbols: str,  message: str | None = None) -> XPathToken:
         super(XPath2Parser, self).advance(*symbols, message=message)
 
-        if self.next_token.symbol == '(:':
+        while self.next_token.symbol == '(:':
             # Parses and consumes an XPath 2.0 comment. A comment is delimited
-            # by symbols '(:' and ':)' and can be nested. The current token is
-            # saved and restored after parsing the entire comment. Comments
-            # cannot be inside a prefixed name ':' specification.
+            # by symbols '(:' and ':)' and can be nested. The token that follows
+            # the comment is built with the token before the comment as current
+            # token (e.g. a '?' placeholder after '(' or ','). Comments cannot be
+            # inside a prefixed name ':' specification.
             self.token.unexpected(':')
-            token = self.token
 
             # The comment body is scanned on the raw source: its text is not made
             # of tokens (e.g. '(:::)' is a comment, not '(:' '::' ')').
@@ -247,10 +247,9 @@ class XPath2Parser(XPath1Parser):
                     comment_level -= 1
                     pos = end + 2
             self.tokens = iter(self.tokenizer.finditer(source, pos))
-            self.advance()
-
+            self.next_token = self.token
+            super(XPath2Parser, self).advance()
             self.next_token.unexpected(':')
-            self.token = token
 
         return self.token
 
